@@ -14,6 +14,8 @@ EXPLANATION = (
     'by the cost placed, layers and factors are visited in decreasing cost, co-located factors share one choice, and the '
     'function reads nothing but its arguments.  The balance bound itself is an arithmetic consequence and is not decided.')
 
+NOT_DECIDED = 'the balance bound (arithmetic consequence of the decided greedy form)'
+
 
 def run(ctx: Ctx) -> None:
     ctx.do(A.rule_det_pure, f'{A.KA}.greedy_assignment')
